@@ -2,6 +2,7 @@ import FimVerif.Generated.Cypher
 import FimVerif.Proofs.Lemmas.C19Render
 import FimVerif.Proofs.Lemmas.C19Partial
 import FimVerif.Proofs.Lemmas.C19Holes
+import FimVerif.Proofs.Lemmas.C19Dangling
 /-!
 # C19 — persistent-backend statements are well-formed and data-independent
 
@@ -406,6 +407,46 @@ theorem clause_structure_checked :
     (lint t!"MATCH (n {GraphID: $g}) WHERE n.a = 1 WHERE n.b = 2 RETURN n" [t!"g"]).defects = ["clause-order"] ∧
     (lint t!"MATCH (n {GraphID: $g}) RETURN n SET n.a = 1" [t!"g"]).defects = ["clause-order"] ∧
     (lint t!"MATCH (n {GraphID: $g}) WHERE n.a = 1" [t!"g"]).defects = ["clause-order"] := by decide +kernel
+
+/-- EMPTY ENTRIES ARE REJECTED, unbounded: whatever the statement, if its token list has a comma that is followed by a comma, a
+closing bracket or nothing (an empty entry in the middle or at the end of a map / list / item list: `{ a: 'x', , b: 'y' }`,
+`{ a: 'x', }`), the lint reports `dangling-comma` - for every prefix, every suffix and every set of supplied parameters -/
+theorem lint_rejects_empty_entry (text : Text) (supplied : List Text) (pre post : List Tok)
+    (h : classify none (lexRaw text).toks = pre ++ Tok.sym cp%',' :: post) (hb : commaBad post.head? = true) :
+    "dangling-comma" ∈ (lint text supplied).defects := by
+  unfold lint lintCodes
+  simp only [h, scan_flags_comma pre post none none St.init hb]
+  simp
+
+/-- ... and an empty FIRST entry (`{ , a: 'x' }`, `[ , 1]`, `( , n)`): an opening bracket directly followed by a comma -/
+theorem lint_rejects_leading_empty_entry (text : Text) (supplied : List Text) (pre post : List Tok) (c : Nat) (hc : isOpener c = true)
+    (h : classify none (lexRaw text).toks = pre ++ Tok.sym c :: Tok.sym cp%',' :: post) :
+    "dangling-comma" ∈ (lint text supplied).defects := by
+  unfold lint lintCodes
+  simp only [h, scan_flags_opener_comma pre post c none none St.init hc]
+  simp
+
+set_option maxRecDepth 1000000 in
+/-- non-vacuity: the statement update_node_properties would issue with an emptied middle entry has that token shape -/
+example : ∃ pre post, classify none (lexRaw t!"MATCH (s {GraphID: $g}) SET s+= { Name: 'n1', , Site: 'RENC' } RETURN properties(s)").toks
+      = pre ++ Tok.sym cp%',' :: post ∧ commaBad post.head? = true :=
+  ⟨(classify none (lexRaw t!"MATCH (s {GraphID: $g}) SET s+= { Name: 'n1', , Site: 'RENC' } RETURN properties(s)").toks).take 17,
+   (classify none (lexRaw t!"MATCH (s {GraphID: $g}) SET s+= { Name: 'n1', , Site: 'RENC' } RETURN properties(s)").toks).drop 18, by decide +kernel⟩
+
+set_option maxRecDepth 1000000 in
+/-- empty map entries: a `{ }` map built by joining per-entry fragments of which one is empty (an entry skipped by emptying it
+instead of filtering it) has a doubled, leading or trailing comma - rejected at every position, in both literal styles and in the
+apoc.create.node form; the empty map itself and a map with every entry present are accepted -/
+theorem empty_map_entries_rejected :
+    (lint t!"MATCH (s:GraphNode {GraphID: $g, NodeID: $n}) SET s+= { Name: 'n1', , Site: 'RENC' } RETURN properties(s)" [t!"g", t!"n"]).defects = ["dangling-comma"] ∧
+    (lint t!"MATCH (s:GraphNode {GraphID: $g, NodeID: $n}) SET s+= { , Site: 'RENC' } RETURN properties(s)" [t!"g", t!"n"]).defects = ["dangling-comma"] ∧
+    (lint t!"MATCH (s:GraphNode {GraphID: $g, NodeID: $n}) SET s+= { Name: 'n1',  } RETURN properties(s)" [t!"g", t!"n"]).defects = ["dangling-comma"] ∧
+    (lint t!"MATCH (s:GraphNode {GraphID: $g, NodeID: $n}) SET s+= { , ,  } RETURN properties(s)" [t!"g", t!"n"]).defects = ["dangling-comma"] ∧
+    (lint t!"MATCH (a {GraphID: $g}) -[r:has]- (b {GraphID: $g}) SET r+= { Name: \"n1\", , Site: \"RENC\" } RETURN properties(r)" [t!"g"]).defects = ["dangling-comma"] ∧
+    (lint t!"CALL apoc.create.node([ 'GraphNode', 'X' ], { Class: 'X', , NodeID: 'n' });" []).defects = ["dangling-comma"] ∧
+    (lint t!"MATCH (s:GraphNode {GraphID: $g, NodeID: $n}) SET s+= {  } RETURN properties(s)" [t!"g", t!"n"]).defects = [] ∧
+    (lint t!"MATCH (s:GraphNode {GraphID: $g, NodeID: $n}) SET s+= { Name: 'None', Site: '' } RETURN properties(s)" [t!"g", t!"n"]).defects = [] := by
+  decide +kernel
 
 set_option maxRecDepth 1000000 in
 /-- the library's own vocabularies (regenerated from abc_property_graph_constants.py) are identifier-shaped non-keyword strings:
